@@ -15,7 +15,7 @@ func init() {
 		decided: "R1 the file-serving handlers reach the disk only through the jailed http.FileSystem (no os/ioutil/filepath file access reachable from their ServeHTTP without going through Next), and every FileServer is rooted at http.Dir; " +
 			"R2 every file that can reach a content sink (ServeContent or any other call given the opened file, a listing entry, an archive member) is tested with IsHidden on its own FileInfo and the sink lies on the not-hidden edge, and the file server's decision table (serveFile evaluated against a modelled file system: hidden file, offered and refused codings, existing and hidden siblings) never hands a hidden file to ServeContent and serves a precompressed sibling only in a coding the client accepts; " +
 			"R3 every redirect issued by these handlers targets a copy of the request URL whose path had leading '//' stripped; " +
-			"R4 the Casketfile is added to the hidden list by a parsing callback registered on the root directive. Since round 4: R3 for the file server as a table of serveFile (directory without and file with trailing slash, one to three leading slashes): the redirect target is the same path with exactly one leading slash. Since round 5: R5 the listing table of Browse.loadDirectoryContents: for /, //, /./, /sub/../ and /sub/ the listing names the ordinary entries and never a hidden one (IsHidden answering from the hide list of the value it is asked on). R6 trimPathPrefix as a table with net/url's real functions as the oracle: whatever follows the prefix (//evil.com/dir included) the stripped URL has no host and keeps path and query. Since round 6: R7 the archive walk callback: a hidden directory answers filepath.SkipDir.",
+			"R4 the Casketfile is added to the hidden list by a parsing callback registered on the root directive. Since round 4: R3 for the file server as a table of serveFile (directory without and file with trailing slash, one to three leading slashes): the redirect target is the same path with exactly one leading slash. Since round 5: R5 the listing table of Browse.loadDirectoryContents: for /, //, /./, /sub/../ and /sub/ the listing names the ordinary entries and never a hidden one (IsHidden answering from the hide list of the value it is asked on). R6 trimPathPrefix as a table with net/url's real functions as the oracle: whatever follows the prefix (//evil.com/dir included) the stripped URL has no host and keeps path and query. Since round 6: R7 the archive walk callback: a hidden directory answers filepath.SkipDir. Since round 7: the sibling table also has siblings that are directories; the archive callback is found and driven whether it is a closure or a method value on a carrier struct.",
 		notDecided: "correctness of http.Dir's own path cleaning (stdlib, trusted); symlinks leaving the root; os.SameFile semantics; that only regular files are served.",
 	})
 }
